@@ -614,6 +614,29 @@ def do_setcomp(ex, ev, node):
     return r
 
 
+def do_dictcomp(ex, ev, node):
+    """{i: value(i) for i in range(n) if cond(i)}: domain and values pointwise"""
+    if len(node.generators) != 1:
+        raise Unsupported("dict comprehension with several generators")
+    gen = node.generators[0]
+    it = gen.iter
+    if not (isinstance(it, ast.Call) and isinstance(it.func, ast.Name) and it.func.id == "range" and len(it.args) == 1
+            and isinstance(gen.target, ast.Name) and isinstance(node.key, ast.Name) and node.key.id == gen.target.id):
+        raise Unsupported("dict comprehension shape")
+    n = ev.expr(it.args[0])
+    i = fresh(INT, "dk")
+    sub = Eval(ex, ev.st, ev.spec, {**ev.bound, gen.target.id: i}, ev.old, ev.result)
+    sub.guard = list(ev.guard) + [z3.And(0 <= i.z, i.z < n.z)]
+    cond = z3.And(*[sub.boolean(c) for c in gen.ifs]) if gen.ifs else z3.BoolVal(True)
+    val = sub.expr(node.value)
+    t = TDict(INT, val.t)
+    r = ex.new_sym(t, "dictcomp", ev.st)
+    ev.st.pc.append(z3.ForAll([i.z], z3.And(z3.Select(dict_dom(r), i.z) == z3.And(0 <= i.z, i.z < n.z, cond),
+                                            z3.Implies(z3.Select(dict_dom(r), i.z), z3.Select(dict_val(r), i.z) == val.z)),
+                              patterns=[z3.Select(dict_dom(r), i.z)]))
+    return r
+
+
 def do_sorted(ex, ev, node, xs_value=None):
     """sorted(xs[, key=lambda e: e[c]][, reverse=True]): a list of the same length whose k-th element is
     xs[perm[k]] (ghost index map `_perm`), ordered by the key.  (Injectivity of perm is not stated.)"""
@@ -743,6 +766,9 @@ def call_by_contract(ex, ev: Eval, node: ast.Call, sp, recv, is_init=False):
         t = cex.declared_type(p.arg, p.annotation)
         if isinstance(v.t, TObj):
             raise Unsupported("object passed as argument")
+        if isinstance(v.t, TOpt) and not isinstance(t, TOpt) and not (isinstance(t, TU) and t.uname == "opaque"):
+            ev.ob("none-deref", z3.Not(opt_is_none(v)), node)  # passing a possibly-None value where a value is needed
+            v = opt_val(v)
         pre.vars[p.arg] = coerce_to(v, t)
         if an is not None and isinstance(an, (ast.Name, ast.Attribute)):
             mapping[p.arg] = an
